@@ -46,6 +46,15 @@ def gen_cases(t, sd):
                     cases.append((rng.choice(STARTS), list(x)))
         for _ in range(700):
             cases.append((rng.choice(STARTS), [rng.choice(vals) for _ in range(rng.randint(5, 7))]))
+    # pairs of curves with the SAME first date, last date and length but another interior date (a holiday on the k-th
+    # business day): whatever is derived from the dates must be derived from all of them
+    for _ in range(30 if t == "quick" else 300):
+        st = rng.choice(STARTS)
+        n = rng.randint(6, 11)
+        x = [rng.choice([8, 10, 12, 16]) for _ in range(n)]
+        k1, k2 = rng.sample(range(2, n), 2)
+        cases.append((st, list(x), k1))
+        cases.append((st, list(x), k2))
     # longer curves over a wider but still small range (month / year crossings guaranteed)
     for _ in range(150 if t == "quick" else 1500):
         n = rng.randint(8, 12)
@@ -111,7 +120,8 @@ def confront_long(case, res):
 
 
 def cases_module(cases):
-    body = ",\n".join("<< %d, << %s >> >>" % (s, ", ".join(str(v) for v in x)) for s, x in cases)
+    body = ",\n".join(("<< %d, << %s >> >>" % (c[0], ", ".join(str(v) for v in c[1]))) if len(c) < 3 or not c[2] else
+                      ("<< %d, << %s >>, %d >>" % (c[0], ", ".join(str(v) for v in c[1]), c[2])) for c in cases)
     return "---- MODULE StatsCases ----\nEXTENDS Integers\nCases == <<\n%s\n>>\n====\n" % body
 
 
@@ -158,7 +168,7 @@ def confront(case, res, periods, rng):
     from qstrader.statistics import performance as perf
     from qstrader.statistics.json_statistics import JSONStatistics
     from qstrader.statistics.tearsheet import TearsheetStatistics
-    start, x = case
+    start, x = case[0], case[1]
     days, rs, cum, dd, maxdd, dur, wk, mo, yr, mean, var, nneg, negvar = res
     out = []
     idx = pd.DatetimeIndex([ts(d * 1440).tz_localize(None) for d in days]).date
